@@ -1,4 +1,4 @@
-\* C04 thorough (replay 2): 1 thread, <= 3 spans (verdict free), <= 4 frames, no tasks, nesting <= 3, sync forms, incoming trace+span ids, Frame::current; every transition replayed.
+\* C04 thorough (replay 2): 1 thread, <= 3 spans (verdict free), <= 4 frames, no tasks, nesting <= 3, sync forms, incoming trace+span ids, Frame::current; every transition replayed. Span nodes with explicit trace_id / span_parent / span_id included.
 SPECIFICATION SSpec
 CONSTANTS
     NThreads = 1
@@ -6,6 +6,7 @@ CONSTANTS
     InstKind <- MC_Kind1
     NKeys = 3
     PropChoices <- MC_None
+    DupChoices <- MC_NoDups
     Kinds <- MC_None
     Forms <- MC_None
     MaxFrames = 4
@@ -17,8 +18,8 @@ CONSTANTS
     IncomingKinds <- MC_IncBoth
     WithLazy = FALSE
     HasRng = TRUE
-    ExplicitKinds <- MC_ExNone
-    PushLastWins = TRUE
+    ExplicitKinds <- MC_ExBoth
+    PushLastWins = FALSE
     WithCancel = FALSE
     CancelOwnIds = FALSE
     CtxForms <- MC_Forms
